@@ -297,6 +297,9 @@ func (e *OpEngine) static(m *interp.Machine, fn *ssa.Function, args []interp.Val
 	e.did("A4.pre", key)
 	e.did("A4.shape", key)
 	e.did("S1a.gctx", key)
+	if implErr && !interp.IsNil(implT) {
+		e.find("A4.pre", key, "error-with-result", e.P.FuncPos(fn), "returns an error together with a non-nil result ("+e.describeCall(n)+")")
+	}
 	switch {
 	case implErr && specErr:
 	case implErr && !specErr:
